@@ -285,6 +285,35 @@ inline std::optional<std::string> itemIncoherence(const IssuePtr &is)
          uni = it->units() != nullptr, ui = it->unitsItem() != nullptr, var = it->variable() != nullptr, vp = it->variablePair() != nullptr;
     nonNull = comp + imp + mod + res + uni + ui + var + vp;
     if (nonNull > 1) return std::string("more than one typed getter returns non-null");
+    // exactly the getter designated for type() may return an object, and then it is the stored object
+    {
+        const std::any &a = it->mPimpl->mItem;
+        const char *wrong = nullptr;
+        bool same = true;
+        auto only = [&](bool designated, bool got, const char *name) { if (got && !designated) wrong = name; };
+        bool dComp = t == CellmlElementType::COMPONENT || t == CellmlElementType::COMPONENT_REF;
+        bool dPair = t == CellmlElementType::CONNECTION || t == CellmlElementType::MAP_VARIABLES;
+        bool dModel = t == CellmlElementType::ENCAPSULATION || t == CellmlElementType::MODEL;
+        bool dReset = t == CellmlElementType::RESET || t == CellmlElementType::RESET_VALUE || t == CellmlElementType::TEST_VALUE;
+        only(dComp, comp, "component()");
+        only(dPair, vp, "variablePair()");
+        only(dModel, mod, "model()");
+        only(t == CellmlElementType::IMPORT, imp, "importSource()");
+        only(dReset, res, "reset()");
+        only(t == CellmlElementType::UNIT, ui, "unitsItem()");
+        only(t == CellmlElementType::UNITS, uni, "units()");
+        only(t == CellmlElementType::VARIABLE, var, "variable()");
+        if (wrong) return std::string(wrong) + " returns an object although the item's type is " + std::to_string(int(t));
+        if (dComp && a.type() == typeid(ComponentPtr)) same = std::any_cast<ComponentPtr>(a) == it->component();
+        else if (dPair && a.type() == typeid(VariablePairPtr)) same = std::any_cast<VariablePairPtr>(a) == it->variablePair();
+        else if (dModel && a.type() == typeid(ModelPtr)) same = std::any_cast<ModelPtr>(a) == it->model();
+        else if (t == CellmlElementType::IMPORT && a.type() == typeid(ImportSourcePtr)) same = std::any_cast<ImportSourcePtr>(a) == it->importSource();
+        else if (dReset && a.type() == typeid(ResetPtr)) same = std::any_cast<ResetPtr>(a) == it->reset();
+        else if (t == CellmlElementType::UNIT && a.type() == typeid(UnitsItemPtr)) same = std::any_cast<UnitsItemPtr>(a) == it->unitsItem();
+        else if (t == CellmlElementType::UNITS && a.type() == typeid(UnitsPtr)) same = std::any_cast<UnitsPtr>(a) == it->units();
+        else if (t == CellmlElementType::VARIABLE && a.type() == typeid(VariablePtr)) same = std::any_cast<VariablePtr>(a) == it->variable();
+        if (!same) return std::string("the designated typed getter does not return the stored object for type ") + std::to_string(int(t));
+    }
     const std::type_info &ti = it->mPimpl->mItem.type();
     auto is_t = [&](const std::type_info &x) { return ti == x; };
     bool nullany = !it->mPimpl->mItem.has_value() || is_t(typeid(std::nullptr_t));
@@ -334,6 +363,8 @@ inline std::optional<std::string> loggerIncoherence(const LoggerPtr &l)
     size_t n = l->issueCount(), ne = l->errorCount(), nw = l->warningCount(), nm = l->messageCount();
     if (n != ne + nw + nm) return "issueCount " + std::to_string(n) + " != errors+warnings+messages " + std::to_string(ne + nw + nm);
     if (l->issue(n) || l->error(ne) || l->warning(nw) || l->message(nm)) return std::string("index==count accessor returned non-null");
+    if (l->issue(n + 1) || l->error(ne + 1) || l->warning(nw + 1) || l->message(nm + 1)) return std::string("index==count+1 accessor returned non-null");
+    if (l->issue(SIZE_MAX) || l->error(SIZE_MAX) || l->warning(SIZE_MAX) || l->message(SIZE_MAX)) return std::string("index==SIZE_MAX accessor returned non-null");
     size_t ie = 0, iw = 0, im = 0;
     for (size_t i = 0; i < n; ++i) {
         auto is = l->issue(i);
@@ -347,6 +378,7 @@ inline std::optional<std::string> loggerIncoherence(const LoggerPtr &l)
         default: return "issue(" + std::to_string(i) + ") level outside enumeration";
         }
         if (byLevel != is) return "per-level accessor does not enumerate issue(" + std::to_string(i) + ") [" + levelName(is->level()) + "] in order";
+        if (int(is->referenceRule()) < 0 || int(is->referenceRule()) > int(Issue::ReferenceRule::UNSPECIFIED)) return "issue(" + std::to_string(i) + ") reference rule outside the enumeration: " + std::to_string(int(is->referenceRule()));
         try {
             (void)is->referenceHeading();
             (void)is->url();
